@@ -131,6 +131,20 @@ def main(out_path):
     G.stmts('cgInit', init, P('g', tag='V'), ['r', 'd', 'r_sq', 'grad_mag'],
             {'r': 'V', 'd': 'V'}, 'solve: `r = g; d = -r; r_sq = r.squaredNorm(); grad_mag = g.norm();`')
 
+    # ---- zero gradient: early return of the origin --------------------------------------------
+    # `if (grad_mag == 0) { s.setZero(); return 0; }` right after the initial state, before the tolerance
+    zg_cond = cond_of_if(solve, r'if\s*\(\s*grad_mag\b')
+    G.cond('cgZeroGrad', zg_cond, P('grad_mag'),
+           'solve: `if (grad_mag == 0)` ⇒ `s.setZero(); return 0;` (the origin, model value 0)')
+    _, zg_body = cp.find_region(solve, r'if\s*\(\s*grad_mag\b')
+    if not re.fullmatch(r'\s*s\.setZero\(\)\s*;\s*return\s+0\s*;\s*', zg_body):
+        raise TranslationError('solve: the zero-gradient branch is not `s.setZero(); return 0;`')
+    pos = [re.search(pt, solve).start() for pt in (r'real_t\s+grad_mag\s*=', r'if\s*\(\s*grad_mag\b',
+                                                   r'real_t\s+tolerance\s*=', r'while\s*\(\s*true\s*\)')]
+    if pos != sorted(pos):
+        raise TranslationError('solve: the zero-gradient test is not between `grad_mag = …` and the tolerance / loop')
+    G.regions['cgZeroGradReturn'] = {'hash': cp.ast_hash(zg_body.split())}
+
     # ---- tolerance ---------------------------------------------------------------------------
     tol = cp.find_statement(solve, r'real_t\s+tolerance\s*=')
     G.stmts('cgTolerance', tol,
